@@ -55,6 +55,7 @@ def call_builtin(ip, st, name, args, kwargs, node=None):
 
 def b_len(ip, st, args, kwargs):
     (v,) = args
+    v = unwrap_opt(ip, st, v)
     if isinstance(v, (str, bytes, tuple)):
         return len(v)
     if isinstance(v, Sym):
@@ -539,7 +540,13 @@ def b_all_bytes(ip, st, args, kwargs):
     return mk(z3.InRe(S(b), z3.Star(z3.Re(zstr(bytes([c]))))), 'bool')
 
 
+def b_ghost(ip, st, args, kwargs):
+    """spec primitive: value of a ghost variable"""
+    return st.ghost[args[0]]
+
+
 BUILTIN_IMPL = {
+    'ghost': b_ghost,
     'chr8': b_chr8, 'all_bytes': b_all_bytes,
     'len': b_len, 'range': b_range, 'ord': b_ord, 'chr': b_chr, 'int': b_int, 'str': b_str, 'bool': b_bool,
     'bytes': b_bytes, 'bytearray': b_bytearray, 'isinstance': b_isinstance, 'max': b_max, 'min': b_min,
@@ -929,8 +936,17 @@ def call_dict_method(ip, st, ref, p, name, args, kwargs):
     raise Unsupported('dict method %s' % name)
 
 
+def unwrap_opt(ip, st, v, exc='TypeError'):
+    """an Optional value used where a value is required: `exc` if it is None, else the value"""
+    if isinstance(v, Sym) and is_opt(v.ty):
+        ip.cond_raise(st, opt_is_none(v.ty, v.t), exc, 'NoneType')
+        return mk(opt_val(v.ty, v.t), v.ty[1])
+    return v
+
+
 def call_method(ip, st, recv, name, args, kwargs):
     """method call on a non-repository receiver"""
+    recv = unwrap_opt(ip, st, recv, 'AttributeError')
     if isinstance(name, tuple) and name[0] == '$dyn':
         # getattr(obj, <symbolic name>)(...): dispatch over the candidates the model supplies
         mm = ip.models.get('$dyn_method')
